@@ -188,6 +188,7 @@ theorem walkComps_canon (root : Bool) (fs : FS) (follow : Bool) :
         | some v =>
           cases v with
           | file m c => right; right; left; simp [Node.isLink]
+          | hard i m c => right; right; left; simp [Node.isLink]
           | dir m => right; right; left; simp [Node.isLink]
           | link t =>
             cases follow with
@@ -208,6 +209,7 @@ theorem walkComps_canon (root : Bool) (fs : FS) (follow : Bool) :
         rw [hg] at hdir
         cases v with
         | file m c => cases hdir
+        | hard i m c => cases hdir
         | link t => cases hdir
         | dir m =>
           by_cases hs : searchOk root fs cur = true
@@ -296,6 +298,11 @@ theorem unlink_canon (root : Bool) (fs : FS) (p : Path) (hne : p ≠ []) (hc : C
       by_cases hw : parentW root fs p = true
       · simp only [hw, if_true]; exact .erased rfl (by simp [hv])
       · simp only [hw]; exact .failed .access rfl (by intro e; cases e) (by intro e; cases e)
+    | hard i m c =>
+      simp only
+      by_cases hw : parentW root fs p = true
+      · simp only [hw, if_true]; exact .erased rfl (by simp [hv])
+      · simp only [hw]; exact .failed .access rfl (by intro e; cases e) (by intro e; cases e)
 
 theorem hasBelow_false {fs : FS} {q k : Path} (h : hasBelow fs q = false) (hp : isPre q k = true) (hne : k ≠ q) :
     fget fs k = none := by
@@ -325,6 +332,7 @@ theorem rmdir_canon (root : Bool) (fs : FS) (p : Path) (hne : p ≠ []) (hc : Ca
     rw [h]
     cases v with
     | file m c => exact .failed .notDir rfl (by intro e; cases e) (by intro e; cases e)
+    | hard i m c => exact .failed .notDir rfl (by intro e; cases e) (by intro e; cases e)
     | link t => exact .failed .notDir rfl (by intro e; cases e) (by intro e; cases e)
     | dir m =>
       simp only
@@ -335,14 +343,15 @@ theorem rmdir_canon (root : Bool) (fs : FS) (p : Path) (hne : p ≠ []) (hc : Ca
         · simp only [hw, if_true]; exact .erased rfl (by simpa using hb)
         · simp only [hw]; exact .failed .access rfl (by intro e; cases e) (by intro e; cases e)
 
-/-- `chmod p` on a path that is not a link: fails, or rewrites exactly `p` keeping its kind -/
+/-- `chmod p` on a path that is neither a link nor a name of a shared inode: fails, or rewrites exactly `p` keeping its
+kind -/
 inductive Chmodded (fs : FS) (p : Path) (r : Except Err FS) : Prop
   | failed (e : Err) : r = .error e → (e = .notFound → fget fs p = none) → e ≠ .fuel → Chmodded fs p r
   | done (v v' : Node) : r = .ok (fset fs p v') → fget fs p = some v → v'.isDir = v.isDir → v'.isLink = false →
       Chmodded fs p r
 
 theorem chmod_canon (root : Bool) (fs : FS) (p : Path) (m : Nat) (hne : p ≠ []) (hc : Canon fs p)
-    (hl : isLinkAt fs p = false) : Chmodded fs p (chmod root fs p m) := by
+    (hl : isLinkAt fs p = false) (hh : isHardAt fs p = false) : Chmodded fs p (chmod root fs p m) := by
   unfold chmod
   cases stat_canon root fs p hne hc hl with
   | access h => rw [h]; exact .failed .access rfl (by intro e; cases e) (by intro e; cases e)
@@ -353,6 +362,7 @@ theorem chmod_canon (root : Bool) (fs : FS) (p : Path) (m : Nat) (hne : p ≠ []
     | file m' c => exact .done _ _ rfl hv rfl rfl
     | dir m' => exact .done _ _ rfl hv rfl rfl
     | link t => simp [isLinkAt, hv] at hl
+    | hard i m' c => simp [isHardAt, hv] at hh
 
 /-! ### directory listings -/
 
@@ -392,11 +402,13 @@ theorem nodup_childNames (q : Path) (fs : FS) : (childNames q fs).Nodup := by
       · exact List.Pairwise.filter _ ih
     · exact ih
 
-/-- `read_dir p` on a path that is not a link: fails, or lists distinct names of recorded children of a directory -/
+/-- `read_dir p` on a path that is not a link: fails, or lists distinct names of recorded children of a directory, an
+entry flagged as a directory being one -/
 inductive Listed (fs : FS) (p : Path) (r : Except Err (List (Name × Bool))) : Prop
   | failed (e : Err) : r = .error e → (e = .notFound → fget fs p = none) → e ≠ .fuel → Listed fs p r
   | done (es : List (Name × Bool)) : r = .ok es → isDirAt fs p = true → (es.map Prod.fst).Nodup →
-      (∀ x ∈ es.map Prod.fst, (fget fs (p ++ [x])).isSome = true) → Listed fs p r
+      (∀ x ∈ es.map Prod.fst, (fget fs (p ++ [x])).isSome = true) →
+      (∀ x, (x, true) ∈ es → isDirAt fs (p ++ [x]) = true) → Listed fs p r
 
 theorem readDir_canon (root : Bool) (fs : FS) (p : Path) (hne : p ≠ []) (hc : Canon fs p)
     (hl : isLinkAt fs p = false) : Listed fs p (readDir root fs p) := by
@@ -408,12 +420,13 @@ theorem readDir_canon (root : Bool) (fs : FS) (p : Path) (hne : p ≠ []) (hc : 
     rw [h]
     cases v with
     | file m' c => exact .failed .notDir rfl (by intro e; cases e) (by intro e; cases e)
+    | hard i m' c => exact .failed .notDir rfl (by intro e; cases e) (by intro e; cases e)
     | link t => exact .failed .notDir rfl (by intro e; cases e) (by intro e; cases e)
     | dir m' =>
       simp only
       by_cases hr : (root || bit m' 256) = true
       · simp only [hr, if_true]
-        refine .done _ rfl (by simp [isDirAt, hv]) ?_ ?_
+        refine .done _ rfl (by simp [isDirAt, hv]) ?_ ?_ ?_
         · simp only [List.map_map]
           have : (Prod.fst ∘ fun x => (x, isDirAt fs (p ++ [x]))) = id := by funext x; rfl
           rw [this, List.map_id]; exact nodup_childNames p fs
@@ -422,6 +435,42 @@ theorem readDir_canon (root : Bool) (fs : FS) (p : Path) (hne : p ≠ []) (hc : 
           have : (Prod.fst ∘ fun x => (x, isDirAt fs (p ++ [x]))) = id := by funext x; rfl
           rw [this, List.map_id] at hx
           exact mem_childNames hx
+        · intro x hx
+          obtain ⟨y, _, hy⟩ := List.mem_map.mp hx
+          simp only [Prod.mk.injEq] at hy
+          rw [← hy.1]; exact hy.2
       · simp only [hr]; exact .failed .access rfl (by intro e; cases e) (by intro e; cases e)
+
+/-! ### names of shared inodes -/
+
+theorem isHardAt_of_isDirAt {fs : FS} {p : Path} (h : isDirAt fs p = true) : isHardAt fs p = false := by
+  unfold isDirAt at h; unfold isHardAt
+  cases hg : fget fs p with
+  | none => rfl
+  | some v => rw [hg] at h; cases v <;> simp_all
+
+theorem fget_chmodIno (i m : Nat) (fs : FS) (k : Path) :
+    fget (chmodIno i m fs) k = (fget fs k).map (Node.remode i m) := by
+  induction fs with
+  | nil => rfl
+  | cons kv r ih =>
+    obtain ⟨k', v⟩ := kv
+    unfold chmodIno at ih ⊢
+    simp only [List.map_cons, fget]
+    by_cases hk : k' = k
+    · simp [hk]
+    · simp only [hk, if_false]; exact ih
+
+theorem isDirAt_chmodIno (i m : Nat) (fs : FS) (k : Path) : isDirAt (chmodIno i m fs) k = isDirAt fs k := by
+  unfold isDirAt
+  rw [fget_chmodIno]
+  cases fget fs k with
+  | none => rfl
+  | some v =>
+    cases v with
+    | hard j m' c => by_cases h : j = i <;> simp [Node.remode, h]
+    | file m' c => rfl
+    | dir m' => rfl
+    | link t => rfl
 
 end CnbVerif.RmTree
